@@ -442,3 +442,63 @@ Proof.
         -- destruct pre; discriminate.
       * split; [intros _; exists [], st; split; [reflexivity|exact Ec]|discriminate].
 Qed.
+
+(* ------------------------------------------------------------------ the named features of the binary *)
+
+Definition guard_enc (e : Z) : guard := guard_of (e / two32) (e mod two32).
+Definition available_enc (st : mstore) (im : impl) (e : Z) : bool :=
+  match get_embedded_method st im true (e / two32) (e mod two32) with Found => true | _ => false end.
+
+(* which spork introduces which well-known method: re-checked on the regenerated tables *)
+Lemma feature_guards :
+  guard_enc FeaturePlasmaFuse = Ungated /\ guard_enc FeatureSporkActivate = Ungated /\
+  guard_enc FeaturePillarCollectReward = Ungated /\
+  guard_enc FeatureAcceleratorCreateProject = GatedBy KAccelerator /\ guard_enc FeatureLiquidityFund = GatedBy KAccelerator /\
+  guard_enc FeatureBridgeWrapToken = GatedBy KBridge /\ guard_enc FeatureBridgeRedeem = GatedBy KBridge /\
+  guard_enc FeatureLiquidityStake = GatedBy KBridge /\
+  guard_enc FeatureHtlcCreate = GatedBy KHtlc /\ guard_enc FeatureHtlcUnlock = GatedBy KHtlc.
+Proof. repeat split; vm_compute; reflexivity. Qed.
+
+(* with the sporks enforced in nesting order a gated method is available exactly where its own spork is enforced *)
+Lemma gated_switches_with_its_spork st im e k :
+  nesting_order st im -> guard_enc e = GatedBy k ->
+  (available_enc st im e = true <-> is_active st (id_of im k) = true).
+Proof.
+  intros Hn Hg. unfold available_enc, guard_enc in *.
+  assert (Hs : 0 <= e mod two32 < two32) by (apply Z.mod_pos_bound; unfold two32; lia).
+  split.
+  - intros Ha. pose proof (gated_by_own_spork_partial st im (e / two32) (e mod two32) Hn) as H.
+    unfold gated_by_own_spork in H. rewrite Hg in H. apply H.
+    destruct (get_embedded_method st im true (e / two32) (e mod two32)); [reflexivity|discriminate..].
+  - intros Ha. rewrite (available_when_active st im _ _ k Hs Hg Ha). reflexivity.
+Qed.
+
+Lemma ungated_enc_available st im e : guard_enc e = Ungated -> available_enc st im e = true.
+Proof.
+  intros Hg. unfold available_enc, guard_enc in *.
+  assert (Hs : 0 <= e mod two32 < two32) by (apply Z.mod_pos_bound; unfold two32; lia).
+  rewrite (ungated_always_available st im _ _ Hs Hg). reflexivity.
+Qed.
+
+Theorem features_switch_on_at_enforcement st im : nesting_order st im ->
+  (available_enc st im FeatureAcceleratorCreateProject = true <-> is_active st (id_accelerator im) = true) /\
+  (available_enc st im FeatureLiquidityFund = true <-> is_active st (id_accelerator im) = true) /\
+  (available_enc st im FeatureBridgeWrapToken = true <-> is_active st (id_bridge im) = true) /\
+  (available_enc st im FeatureBridgeRedeem = true <-> is_active st (id_bridge im) = true) /\
+  (available_enc st im FeatureLiquidityStake = true <-> is_active st (id_bridge im) = true) /\
+  (available_enc st im FeatureHtlcCreate = true <-> is_active st (id_htlc im) = true) /\
+  (available_enc st im FeatureHtlcUnlock = true <-> is_active st (id_htlc im) = true) /\
+  available_enc st im FeaturePlasmaFuse = true /\ available_enc st im FeatureSporkActivate = true /\
+  available_enc st im FeaturePillarCollectReward = true.
+Proof.
+  intros Hn. destruct feature_guards as [G1 [G2 [G3 [G4 [G5 [G6 [G7 [G8 [G9 G10]]]]]]]]].
+  split; [exact (gated_switches_with_its_spork st im _ KAccelerator Hn G4)|].
+  split; [exact (gated_switches_with_its_spork st im _ KAccelerator Hn G5)|].
+  split; [exact (gated_switches_with_its_spork st im _ KBridge Hn G6)|].
+  split; [exact (gated_switches_with_its_spork st im _ KBridge Hn G7)|].
+  split; [exact (gated_switches_with_its_spork st im _ KBridge Hn G8)|].
+  split; [exact (gated_switches_with_its_spork st im _ KHtlc Hn G9)|].
+  split; [exact (gated_switches_with_its_spork st im _ KHtlc Hn G10)|].
+  split; [exact (ungated_enc_available st im _ G1)|].
+  split; [exact (ungated_enc_available st im _ G2)|exact (ungated_enc_available st im _ G3)].
+Qed.
